@@ -14,6 +14,14 @@ FIELDS = ["dmr_id", "callsign", "serial", "address_in", "address_out", "address_
 # dynamic keys: two of them are spelled like built-in members -- attr() keeps them in the dynamic namespace, patch() of the same name
 # goes to the member; the two must never be confused
 DYN = ["k1", "k2", "p2p_is_registered", "rx_freq", "serial", "callsign"]
+NDYN_PATCH = 4  # the first four (and the OID keys appended below) are used as dynamic keys in patches; "serial"/"callsign" only through attr()
+try:  # the library's own vocabulary of dynamic keys: the SNMP OIDs its read_snmp_values() stores on a record (order as declared: stable)
+    from okdmr.dmrlib.hytera.snmp import SNMP as _SNMP
+
+    OIDS = [v for k2, v in vars(_SNMP).items() if k2.startswith("OID_") and isinstance(v, str)]
+except Exception:  # pragma: no cover
+    OIDS = []
+DYN = DYN + OIDS
 # the last two are what asyncio hands to datagram_received for IPv6 peers: (host, port, flowinfo, scope_id)
 ADDRS = [["10.0.0.1", 50000], ["10.0.0.1", 50002], ["10.0.0.2", 50000], ["10.0.0.2", 50002], ["fe80::1", 50000, 0, 0], ["fe80::1", 50000, 0, 3],
          ["110.0.0.1", 50000], ["0.0.0.1", 50000], "EMPTY", ["fe80::1%eth0", 50000, 0, 2]]  # textual suffix / prefix relatives of the first IP; the library's own ADDRESS_EMPTY constant; a zone-scoped link-local host
@@ -22,8 +30,10 @@ DEFAULTS = {"dmr_id": None, "callsign": "", "serial": "", "address_out": ("", 0)
 
 
 def tag(v):
-    if isinstance(v, (tuple, list)):
+    if isinstance(v, tuple):
         return ["addr", list(v)]
+    if isinstance(v, (dict, list)):
+        return [type(v).__name__, core.dumps(v)]
     return [type(v).__name__, v]
 
 
@@ -31,6 +41,12 @@ def untag(v):
     """JSON value -> python value used in calls ({'addr': [...]} -> tuple)"""
     if isinstance(v, dict) and "addr" in v:
         return addr_of(v["addr"])
+    if isinstance(v, dict) and "uuid" in v:
+        return _uuid.UUID(hex=v["uuid"])
+    if isinstance(v, (dict, list)):
+        import copy
+
+        return copy.deepcopy(v)  # container values: a fresh object per patch unless the caller re-uses its patch object (reuse_patch)
     return v
 
 
@@ -44,8 +60,17 @@ def addr_of(a):
     return tuple(a)
 
 
-def real_patch(p):
-    return {k: untag(v) for k, v in p.items()}
+_last_patch = {"json": None, "obj": None}
+
+
+def real_patch(p, reuse=False):
+    """JSON patch -> the dict handed to the library.  reuse: the caller applies the very patch OBJECT it used last time (same dict, same value
+    objects) when it says the same thing -- an application that builds one patch and applies it to several records"""
+    if reuse and _last_patch["obj"] is not None and _last_patch["json"] == core.dumps(p):
+        return _last_patch["obj"]
+    obj = {k: untag(v) for k, v in p.items()}
+    _last_patch["json"], _last_patch["obj"] = core.dumps(p), obj
+    return obj
 
 
 class UuidSeam:
@@ -87,7 +112,10 @@ def rnd_patch(r):
             f = r.choice(FIELDS)
             d[f] = rnd_value(f, r)
         else:
-            d[r.choice(DYN[:4])] = r.choice([1, 2, "x", True, 0, False, 0.5, "", None])
+            key = r.choice(DYN[:NDYN_PATCH]) if r.random() < 0.8 or not OIDS else r.choice(OIDS)
+            d[key] = r.choice([1, 2, "x", True, 0, False, 0.5, "", None, {"a": 1}, {"a": 2, "b": [1, 2]}, [1, 2], []])
+    # (never the built-in "id": the library documents it as read-only; a caller that overwrites it breaks the storage's index on the unchanged
+    # tree as well -- outside the property's domain, see DESIGN 9.7)
     return d
 
 
@@ -170,6 +198,7 @@ class C20(Check):
         weights["match_incoming"] = max(weights["match_incoming"], 2 if nrec == 6 else 6)
         names = list(weights)
         ops = []
+        last_patch_op = None
         for _ in range(n):
             o = w.choices(names, [weights[x] for x in names])[0]
             op = {"op": o, "client": s.randrange(nclients)}
@@ -196,6 +225,11 @@ class C20(Check):
             elif o == "match_uuid":
                 op["rec"] = w.randrange(nrec)
                 op["unknown"] = w.random() < 0.1
+            if op.get("patch") and last_patch_op is not None and w.random() < 0.15:
+                op["patch"] = dict(last_patch_op["patch"])  # the application applies the patch it built a moment ago to another record as well
+                op["reuse_patch"] = True
+            if op.get("patch"):
+                last_patch_op = op
             ops.append(op)
         for pos in churn_at:  # scale runs: hundreds of records are created AFTER short-lived ones were collected
             ops.insert(pos, {"op": "churn", "n": k.choice([400, 3000]), "client": 0})
@@ -263,11 +297,17 @@ class C20(Check):
             return None
 
         def mpatch(m, p):
+            import copy
+
             for k, v in p.items():
-                if k in FIELDS:
+                if k == "id":
+                    m["id"] = v
+                    m["id_patched"] = True  # how the storage indexes a record whose id was patched is not stated: uuid lookups of it are not judged
+                    res.probe("patch_names_the_builtin_id")
+                elif k in FIELDS:
                     m["s"][k] = v
                 elif v is not None:
-                    m["s"]["@" + k] = v
+                    m["s"]["@" + k] = copy.deepcopy(v) if isinstance(v, (dict, list)) else v  # the model keeps its own copy of container values
                     m["any"].discard("@" + k)
                 else:
                     m["any"].add("@" + k)  # a None value for a dynamic key: what happens to that key is not constrained by the property
@@ -314,7 +354,7 @@ class C20(Check):
                     site = "churn"
                 elif o == "match_incoming":
                     addr = addr_of(op["addr"])
-                    p = real_patch(op["patch"]) if op.get("patch") is not None else None
+                    p = real_patch(op["patch"], op.get("reuse_patch")) if op.get("patch") is not None else None
                     m = mfind(lambda x: x["s"]["address_in"] == addr)
                     kw = {} if p is None else {"patch": p}
                     site = f"match_incoming(auto={op['auto']},patch={'default' if p is None else ('empty' if not p else 'given')})"
@@ -385,19 +425,21 @@ class C20(Check):
                                 V("C20.lookup", f"match_uuid of an unknown id returned {r2!r}")
                             except SystemError:
                                 pass
+                        elif m.get("id_patched"):
+                            outcome = "skip"
                         else:
                             r2 = st.match_uuid(m["id"])
                             if r2 is not r:
                                 V("C20.identity", f"match_uuid({m['id']}) returned another object (id {getattr(r2, 'id', None)})")
                     elif o == "save":
-                        p = real_patch(op["patch"])
+                        p = real_patch(op["patch"], op.get("reuse_patch"))
                         r2 = st.save(r, p)
                         if r2 is not r:
                             V("C20.identity", "save() returned a different object")
                         mpatch(m, p)
                         held[c] = idx
                     elif o in ("patch", "held_patch"):
-                        p = real_patch(op["patch"])
+                        p = real_patch(op["patch"], op.get("reuse_patch"))
                         r.patch(p)
                         mpatch(m, p)
                     elif o in ("attr_set", "held_attr"):
@@ -441,11 +483,17 @@ class C20(Check):
             if len(set(ids)) != len(ids):
                 V("C20.identity", f"two records share an id: {ids}")
             for m in model:
-                try:
-                    r = st.match_uuid(m["id"])
-                except SystemError:
-                    V("C20.identity", f"record {m['id']} vanished from the storage")
-                    continue
+                if m.get("id_patched"):
+                    r = m["obj"]
+                    if not any(x is r for x in st.all()):
+                        V("C20.identity", f"record {m['id']} (id patched earlier) vanished from the storage")
+                        continue
+                else:
+                    try:
+                        r = st.match_uuid(m["id"])
+                    except SystemError:
+                        V("C20.identity", f"record {m['id']} vanished from the storage")
+                        continue
                 if r is not m["obj"]:
                     V("C20.identity", f"storage now holds a different object for id {m['id']}")
                 sr, sm = snap_real(r), snap_model(m)
